@@ -8,7 +8,7 @@
 set -u
 prop="$1"; dir="$(readlink -f "$2")"; shift 2
 export GOFLAGS=-mod=mod GOPROXY=off GOSUMDB=off GOTOOLCHAIN=local
-root=$(mktemp -d /tmp/seedeval.XXXXXX); wt="$root/wt"; hs="$root/h"
+root=$(mktemp -d /tmp/seedeval.XXXXXX); wt="$root/wt-$$"; hs="$root/h"
 trap 'git -C /repo worktree remove --force "$wt" 2>/dev/null; git -C /repo worktree prune; rm -rf "$root"' EXIT
 git -C /repo worktree add -q --detach "$wt" HEAD || exit 2
 git -C "$wt" apply --check "$dir/patch.diff" || { echo "PATCH-DOES-NOT-APPLY"; exit 3; }
